@@ -53,7 +53,7 @@ PARTIAL = {
     "C14": "PARTIAL: delivery to the process's standard output is OS/runtime behaviour and is not proved; it is observed with a child process over the real stdout_channel. The channel model's homomorphism is proved.",
 }
 
-BASE_N = {"quick": 1500, "thorough": 20000}
+BASE_N = {"quick": 4000, "thorough": 20000}
 THOROUGH_SEEDS = 5
 
 
